@@ -143,10 +143,14 @@ def _step_call(kind):
     return seqz.sequentialise_obj(T, type(T.gettz), "__call__")
 
 
-def h_threads(kind, same_key, preemptions):
+def h_threads(kind, same_key, preemptions, cache_size=None, second="call"):
+    """second: what the second logical thread runs - the same factory call ("call") or gettz.cache_clear() ("clear").
+    cache_size: strong-cache size set before the threads start (None = 2 as in the history cells)."""
     from dateutil import tz
     from engine import seqz
+    import dateutil.tz.tz as T
     step_fn, _src = _step_call(kind)
+    clear_fn = seqz.sequentialise_obj(T, type(T.gettz), "cache_clear")[0] if second == "clear" else None
     types = {"s%d" % j: int for j in range(preemptions)}
     bound = 40
 
@@ -154,6 +158,11 @@ def h_threads(kind, same_key, preemptions):
         lock = seqz.ModelLock()
         if kind != "tzutc":
             _reset(kind)
+        if cache_size is not None and kind == "gettz":
+            tz.gettz.set_cache_size(cache_size)
+            if second == "clear":           # a full strong cache before the race
+                tz.gettz("UTC")
+                tz.gettz("Europe/London")
         k0 = KEYS.get(kind, [()])[1 if kind == "gettz" else 0]
         k1 = k0 if same_key else KEYS[kind][2]
 
@@ -167,7 +176,8 @@ def h_threads(kind, same_key, preemptions):
             return (tz.gettz,) + tuple(key)
         cm = _model_lock(kind, lock) if kind != "tzutc" else contextlib.nullcontext()
         with cm:
-            ths = [seqz.Thread(step_fn(*args(k0)), "T0"), seqz.Thread(step_fn(*args(k1)), "T1")]
+            ths = [seqz.Thread(step_fn(*args(k0)), "T0"),
+                   seqz.Thread(step_fn(*args(k1)) if second == "call" else clear_fn(tz.gettz), "T1")]
             segs = []
             for j in range(preemptions):
                 sj = kw["s%d" % j]
@@ -181,8 +191,11 @@ def h_threads(kind, same_key, preemptions):
             if t.error is not None:
                 ctx.fail("a factory call raised %s: %s" % (type(t.error).__name__, t.error),
                          key="thread-raises-%s-%s" % (kind, type(t.error).__name__), segs=segs)
-            ctx.check(t.result is not None, "a thread got None", key="thread-none-%s" % kind, segs=segs)
-        if same_key:
+            if second == "call" or t is ths[0]:
+                ctx.check(t.result is not None, "a thread got None", key="thread-none-%s" % kind, segs=segs)
+        if second != "call":
+            pass
+        elif same_key:
             ctx.check(ths[0].result is ths[1].result, "two threads got two different live objects for one key",
                       key="thread-identity-%s" % kind, segs=segs)
         else:
@@ -274,6 +287,11 @@ def cells(tier):
         for same in ((True,) if kind == "tzutc" else (True, False)):
             cs.append(Cell(M, "h_threads", dict(kind=kind, same_key=same, preemptions=1), budget_s=120, max_violations=500))
             cs.append(Cell(M, "h_threads", dict(kind=kind, same_key=same, preemptions=2), budget_s=200 if q else 1200, max_violations=500))
+    # gettz: strong-cache bookkeeping under races - size 0 / 1 with the same name, and a concurrent cache_clear()
+    for size in (0, 1):
+        cs.append(Cell(M, "h_threads", dict(kind="gettz", same_key=True, preemptions=2, cache_size=size), budget_s=200, max_violations=500))
+    cs.append(Cell(M, "h_threads", dict(kind="gettz", same_key=False, preemptions=2, cache_size=1), budget_s=200, max_violations=500))
+    cs.append(Cell(M, "h_threads", dict(kind="gettz", same_key=True, preemptions=2, cache_size=2, second="clear"), budget_s=200, max_violations=500))
     for kind in ("tzoffset", "tzoffset-td", "tzrange", "tzstr", "tzutc", "gettz"):
         cs.append(Cell(M, "h_equal", dict(kind=kind), budget_s=200 if q else 1200, max_violations=100))
     return cs
